@@ -23,7 +23,7 @@ def cargo_env(seed):
     return env
 
 
-def cargo_test(filters, seed, extra_env=None, timeout=3000):
+def cargo_test(filters, seed, extra_env=None, timeout=900):
     env = cargo_env(seed)
     if extra_env:
         env.update(extra_env)
@@ -36,12 +36,21 @@ def cargo_test(filters, seed, extra_env=None, timeout=3000):
     lock = open(os.path.join(ROOT, "build", "twin.lock"), "w")
     fcntl.flock(lock, fcntl.LOCK_EX)
     try:
-        p = subprocess.run(cmd, cwd=REPO, env=env, stdout=subprocess.PIPE, stderr=subprocess.STDOUT, text=True, timeout=timeout)
-        out = p.stdout
-        code = p.returncode
-    except subprocess.TimeoutExpired as e:
-        out = (e.stdout or "") + "\nTIMEOUT"
-        code = -1
+        # own process group: a twin that does not come back (a change that makes the node loop for ever) is killed with the
+        # test binary cargo started, and counts as failed — a check must always return
+        import signal
+        p = subprocess.Popen(cmd, cwd=REPO, env=env, stdout=subprocess.PIPE, stderr=subprocess.STDOUT, text=True, start_new_session=True)
+        try:
+            out, _ = p.communicate(timeout=timeout)
+            code = p.returncode
+        except subprocess.TimeoutExpired:
+            try:
+                os.killpg(p.pid, signal.SIGKILL)
+            except ProcessLookupError:
+                pass
+            out, _ = p.communicate()
+            out = (out or "") + "\nTIMEOUT after %d s" % timeout
+            code = -1
     finally:
         fcntl.flock(lock, fcntl.LOCK_UN)
         lock.close()
@@ -55,6 +64,11 @@ def parse(out):
     passed += re.findall(r"test (\S+) \.\.\. .*?\bok$", out, re.M)
     wit = re.findall(r"^WITNESS: (.*)$", out, re.M)
     built = "running " in out or "test result" in out
+    if "\nTIMEOUT after" in out:
+        # tests that were started and never reported: they did not return within the time limit (with --test-threads the
+        # harness prints `test X ...` lines only on completion, so what is missing from passed/failed among the filters is unknown:
+        # the run as a whole is reported as one failing pseudo-test)
+        failed = sorted(set(failed + ["(no result within the time limit) " + " ".join(re.findall(r"^test (\S+) has been running for over", out, re.M))[:200]]))
     if wit and not failed:
         # a watchdog test that had to kill the process (non-termination witness): the harness never prints FAILED
         started = re.findall(r"^test (\S+) \.\.\. *$", out, re.M) or re.findall(r"^test (\S+) \.\.\. WITNESS", out, re.M)
